@@ -40,6 +40,7 @@ Qed.
 
 Section Step.
 Variable cap : nat.
+Variable ep : N.
 Variable lam : fev -> N.
 Variable vals : list (N * N).
 Hypothesis Hvals : vals_ok vals.
@@ -50,15 +51,15 @@ Notation ws := (map snd vals).
 Notation nv := (length vals).
 Notation q := (ElectionSpec.quorum_of ws).
 Notation fcn := (fc_n ws q).
-Notation ae := (to_aevent lam vals).
+Notation ae := (to_aevent ep lam vals).
 Notation slot := (slot vals).
-Notation Core := (Core lam vals).
+Notation Core := (Core ep lam vals).
 Notation cache_inv := (cache_inv vals).
 
 (* simulation at event boundaries; B = the blocks (frame, Atropos, cheaters) emitted so far *)
 Record Sim (i : inst) (T : list node) (Dr : list fev) (B : list (N * N * list N)) : Prop := {
   sm_wf : wfTD vals T Dr;
-  sm_done : Done lam vals T Dr (i_es i) (stale J (l_ctr (i_st i))) (i_st i);
+  sm_done : Done ep lam vals T Dr (i_es i) (stale J (l_ctr (i_st i))) (i_st i);
   sm_fresh : forall e, In e Dr -> id_fresh K (eid (fe e)) /\ ~ J (eid (fe e));
   sm_ctr : l_ctr (i_st i) <= K;
   sm_proc : forall id, In id (i_proc i) <-> In id (ids_of Dr);
@@ -83,8 +84,8 @@ Lemma accepted_wf_new st es T Dr R e : Core st es T Dr R ->
   parents_known T e -> nlookup (eid (fe e)) T = None -> (ecr (fe e) < nv)%nat -> ev_wf T e ->
   wf_new nv (l_idx st) (fe e).
 Proof.
-  intros C PK NL CR [S1 S2]. pose proof (co_wf _ _ _ _ _ _ _ C) as W.
-  unfold wf_new, evt. rewrite (co_evs _ _ _ _ _ _ _ C).
+  intros C PK NL CR [S1 S2]. pose proof (co_wf _ _ _ _ _ _ _ _ C) as W.
+  unfold wf_new, evt. rewrite (co_evs _ _ _ _ _ _ _ _ C).
   split; [apply (link_none vals T Dr _ W NL)|]. split; [exact CR|]. split; [exact S1|]. split.
   - intros p Hp. destruct (PK p Hp) as [n L]. apply nlookup_some in L as [Hn En].
     destruct (link_node vals T Dr n W Hn) as [ev [E _]]. exists ev. rewrite <- En. exact E.
@@ -137,7 +138,7 @@ Qed.
 Lemma process_step i T Dr B e : Sim i T Dr B -> id_fresh K (eid (fe e)) -> ~ J (eid (fe e)) ->
   parents_known T e -> nlookup (eid (fe e)) T = None -> (ecr (fe e) < nv)%nat -> ev_wf T e ->
   r_frame_ok vals T (mk_node nv T e) = true -> few_forkers vals (mk_node nv T e :: T) ->
-  exists bl i', step cap [] sample i (OpP (ae e)) = (ObsP None bl (l_ldf (i_st i')) 1, i', false) /\
+  exists bl i', step cap [] sample i (OpP (ae e)) = (ObsP None bl (l_ldf (i_st i')) ep, i', false) /\
     Sim i' (mk_node nv T e :: T) (e :: Dr) (B ++ map blk_obs bl) /\ l_ctr (i_st i') = l_ctr (i_st i).
 Proof.
   intros [W [S [ES0 AV]] FR CT PR SG CH] Fe Je PK NL CR EW FO Hff'.
@@ -153,24 +154,24 @@ Proof.
   { unfold guard. fold st. cbn [andb to_aevent a_id a_epoch a_parents a_creator].
     replace (AbftRun.mem (eid (fe e)) (i_proc i)) with false.
     2:{ symmetry. destruct (AbftRun.mem (eid (fe e)) (i_proc i)) eqn:M; [|reflexivity]. exfalso. apply Hnotin, PR, mem_true, M. }
-    rewrite (co_epoch _ _ _ _ _ _ _ C). cbn [N.eqb Pos.eqb negb].
+    rewrite (co_epoch _ _ _ _ _ _ _ _ C), N.eqb_refl. cbn [negb].
     replace (forallb (fun p => AbftRun.mem p (i_proc i)) (epar (fe e))) with true.
     2:{ symmetry. apply forallb_forall. intros p Hp. apply mem_true, PR. destruct (PK p Hp) as [m L].
         apply nlookup_some in L as [Hm Em]. destruct (node_event vals T Dr m W Hm) as [e0 [He0 [E0 _]]].
         unfold ids_of. apply in_map_iff. exists e0. split; [congruence | exact He0]. }
-    cbn [negb]. rewrite (co_vals _ _ _ _ _ _ _ C), (v_exists_vid vals _ (vals_nodup vals Hvals) CR). reflexivity. }
+    cbn [negb]. rewrite (co_vals _ _ _ _ _ _ _ _ C), (v_exists_vid vals _ (vals_nodup vals Hvals) CR). reflexivity. }
   cbn [step]. rewrite G. fold st es.
   set (es1 := aput (a_id (ae e)) (ae e) es).
   (* index Add *)
   pose proof (accepted_wf_new st es T Dr T e C PK NL CR EW) as WN.
-  destruct (add_preserves nv (l_idx st) (fe e) (co_vinv _ _ _ _ _ _ _ C) WN) as [s' [Hadd [I' Ev']]].
-  unfold process. rewrite (co_vals _ _ _ _ _ _ _ C), (vev_ae e CR), Hadd.
+  destruct (add_preserves nv (l_idx st) (fe e) (co_vinv _ _ _ _ _ _ _ _ C) WN) as [s' [Hadd [I' Ev']]].
+  unfold process. rewrite (co_vals _ _ _ _ _ _ _ _ C), (vev_ae e CR), Hadd.
   (* the state in which the frame is checked *)
   assert (Hes1 : get_event es1 (eid (fe e)) = Some (ae e)).
   { unfold es1, get_event. cbn [to_aevent a_id]. apply alookup_aput_eq. }
   assert (Hes1' : forall e0, In e0 Dr -> get_event es1 (eid (fe e0)) = Some (ae e0)).
   { intros e0 He0. unfold es1, get_event. cbn [to_aevent a_id]. rewrite alookup_aput_neq.
-    - apply (co_es _ _ _ _ _ _ _ C); [exact He0|]. destruct (event_node vals T Dr e0 W He0) as [m [Hm [Em _]]]. exists m. auto.
+    - apply (co_es _ _ _ _ _ _ _ _ C); [exact He0|]. destruct (event_node vals T Dr e0 W He0) as [m [Hm [Em _]]]. exists m. auto.
     - intros E0. apply Hnotin. rewrite <- E0. unfold ids_of. apply in_map_iff. exists e0. auto. }
   assert (C1 : Core (set_idx st s') es1 (n :: T) (e :: Dr) T).
   { destruct C as [A Bv Cc D E F Gs H Ir]. constructor; auto.
@@ -182,15 +183,15 @@ Proof.
   assert (CIa : cache_inv (stale J (l_ctr st)) (set_idx st s') (n :: T) T).
   { intros a b r Hc. destruct (CI a b r Hc) as [Tm|(na & nb & Ia & Ib & R)]; [left; exact Tm|].
     right. exists na, nb. split; [right; exact Ia | auto]. }
-  destruct (calc_frame_sim cap lam vals Hvals (set_idx st s') es1 (n :: T) (e :: Dr) T (stale J (l_ctr st)) (n :: T) n (ae e) true
+  destruct (calc_frame_sim cap ep lam vals Hvals (set_idx st s') es1 (n :: T) (e :: Dr) T (stale J (l_ctr st)) (n :: T) n (ae e) true
               C1 (incl_refl _) (or_introl eq_refl) NTn eq_refl CIa) as [c1 [ECF CI1]].
   rewrite ECF.
-  rewrite (frame_check_sim lam vals Hvals (set_idx st s') es1 T Dr e (ae e) C1 eq_refl eq_refl eq_refl).
+  rewrite (frame_check_sim ep lam vals Hvals (set_idx st s') es1 T Dr e (ae e) C1 eq_refl eq_refl eq_refl).
   cbn [to_aevent a_frame]. rewrite N.eqb_refl. cbn [negb].
-  change (a_frame (to_aevent lam vals e)) with (ffr e).
+  change (a_frame (to_aevent ep lam vals e)) with (ffr e).
   set (st1 := set_fcc (set_idx st s') c1).
   assert (Lspf : nd_spf n <= ffr e) by (apply (spf_le_fr vals (n :: T) n HwfT' (or_introl eq_refl))).
-  pose proof (Core_add_roots st1 es1 T Dr e (Core_fcc _ _ _ _ _ _ _ c1 C1) NL Lspf Hes1) as C2.
+  pose proof (Core_add_roots st1 es1 T Dr e (Core_fcc _ _ _ _ _ _ _ _ c1 C1) NL Lspf Hes1) as C2.
   cbn zeta in C2. fold n in C2.
   set (st2 := if nd_spf n =? ffr e then st1 else add_roots st1 (nd_spf n) (ae e)) in *.
   assert (F2 : l_ldf st2 = l_ldf st /\ l_el st2 = l_el st /\ l_ctr st2 = l_ctr st /\ l_fcc st2 = c1).
@@ -201,14 +202,14 @@ Proof.
   { intros m [<-|Hm]; [exact NTn|]. destruct (node_event vals T Dr m W Hm) as [e0 [He0 [E0 _]]].
     rewrite <- E0. destruct (FR e0 He0) as [F0 J0]. intros [Tm|Jn]; [exact (id_fresh_not_temp K _ _ CT F0 Tm) | exact (J0 Jn)]. }
   pose (Sold := fun r => S r /\ exists m g, In m T /\ r = slot m g).
-  assert (E2 : ES lam vals (n :: T) (e :: Dr) es1 (stale J (l_ctr st)) st2 Sold).
+  assert (E2 : ES ep lam vals (n :: T) (e :: Dr) es1 (stale J (l_ctr st)) st2 Sold).
   { constructor.
     - exact C2.
     - intros a b r Hc. rewrite Fc2 in Hc. destruct (CI1 a b r Hc) as [Tm|(na & nb & Ia & Ib & R)]; [left; exact Tm|].
       right. exists na, nb. split; [exact Ia|]. split; [right; exact Ib | exact R].
     - rewrite L2, El2. apply (EI_mono vals T (n :: T) HwfT HwfT' (fun x Hx => or_intror Hx)). exact I0.
     - rewrite El2. exact N0. }
-  destruct (handle_sim cap lam vals Hvals (n :: T) (e :: Dr) es1 (stale J (l_ctr st)) Hff' NT' W' (ae e) n eq_refl eq_refl eq_refl
+  destruct (handle_sim cap ep lam vals Hvals (n :: T) (e :: Dr) es1 (stale J (l_ctr st)) Hff' NT' W' (ae e) n eq_refl eq_refl eq_refl
               (or_introl eq_refl) (Datatypes.S (Datatypes.S (N.to_nat (ffr e - nd_spf n)))) st2 Sold (nd_spf n + 1) [] E2)
     as [bl [st' [EH [D' [SG' [BO [RR CC]]]]]]].
   { lia. }
@@ -224,8 +225,8 @@ Proof.
   { unfold sealed_in. destruct (existsb _ bl) eqn:X; [|reflexivity]. apply existsb_exists in X as [b [Hb X]].
     destruct (BO b Hb) as [_ Sl]. rewrite Sl in X. discriminate. }
   rewrite Hseal.
-  assert (Ep' : l_epoch st' = 1).
-  { destruct D' as [S' [[C' _ _ _] _]]. apply (co_epoch _ _ _ _ _ _ _ C'). }
+  assert (Ep' : l_epoch st' = ep).
+  { destruct D' as [S' [[C' _ _ _] _]]. apply (co_epoch _ _ _ _ _ _ _ _ C'). }
   rewrite Ep'.
   exists bl, {| i_st := st'; i_es := es1; i_proc := a_id (ae e) :: i_proc i |}. split; [reflexivity|].
   cbn [i_st i_es i_proc]. split; [|rewrite CC, Ct2; reflexivity]. constructor; cbn [i_st i_es i_proc].
